@@ -125,6 +125,9 @@ def gen_table(rng, nfeat=None):
     return df, exp, meta
 
 
+BOM_COUNT = [0, 0]
+
+
 def write(df, d, fmt, rng, tag=""):
     if fmt == "parquet":
         import pyarrow as pa
@@ -134,7 +137,19 @@ def write(df, d, fmt, rng, tag=""):
         pq.write_table(pa.Table.from_pandas(df, preserve_index=False), p, row_group_size=int(rng.integers(1, len(df) + 2)))
     else:
         p = d / f"t{tag}.pin"
-        df.to_csv(p, sep="\t", index=False)
+        text = df.to_csv(sep="\t", index=False)
+        import zlib
+
+        h = zlib.crc32(text.encode())
+        if h % 5 == 0:
+            # a table saved by a spreadsheet program: UTF-8 byte-order mark in front of the header
+            p.write_bytes(b"\xef\xbb\xbf" + text.encode())
+            BOM_COUNT[0] += 1
+        elif h % 5 == 1:
+            p.write_bytes(text.replace("\n", "\r\n").encode())   # CRLF line endings
+            BOM_COUNT[1] += 1
+        else:
+            p.write_text(text)
     return p
 
 
@@ -266,6 +281,10 @@ def run_sweep(case):
                 evals += 1
                 sigs.add((nfeat, meta["n_ident"], fmt))
     res["evals"] = evals
+    if BOM_COUNT[0] or BOM_COUNT[1]:
+        res.count("text_inputs_with_bom", BOM_COUNT[0])
+        res.count("text_inputs_with_crlf", BOM_COUNT[1])
+        BOM_COUNT[0] = BOM_COUNT[1] = 0
     res["distinct_n"] = len(sigs)
     res["nontrivial"] = True
     return res
@@ -292,6 +311,10 @@ def run_random(case):
             if rep == 0:
                 res["sample"] = dict(meta, columns=list(df.columns)[:12], fmt=fmt, col_chunk=colchunk, row_chunk=rowchunk, workers=workers)
     res["evals"] = evals
+    if BOM_COUNT[0] or BOM_COUNT[1]:
+        res.count("text_inputs_with_bom", BOM_COUNT[0])
+        res.count("text_inputs_with_crlf", BOM_COUNT[1])
+        BOM_COUNT[0] = BOM_COUNT[1] = 0
     res["distinct_n"] = len(sigs)
     res["nontrivial"] = len(sigs) > 0
     return res
@@ -326,6 +349,10 @@ def run_reject(case):
                 if c.info["type"] != "ValueError":
                     res.count("rejections_with_other_exception_type")
     res["evals"] = evals
+    if BOM_COUNT[0] or BOM_COUNT[1]:
+        res.count("text_inputs_with_bom", BOM_COUNT[0])
+        res.count("text_inputs_with_crlf", BOM_COUNT[1])
+        BOM_COUNT[0] = BOM_COUNT[1] = 0
     res["distinct_n"] = evals
     res["nontrivial"] = True
     res["sample"] = {"rejection_exception_types": types}
